@@ -49,15 +49,49 @@ def exhaustive_pairs(tier):
                     if tier == "quick" and len(pts) > 12 and (a * 7 + b) % 4:
                         continue
                     out.append({"cellname": name, "mult": 1, "cell": cell, "pbc": list(pbc), "pos": [pts[a], pts[b]],
-                                "c2x2": c2x2, "k": -1, "none_cutoff": False})
+                                "c2x2": c2x2, "k": -1 if (a + b) % 4 else -2, "none_cutoff": False})  # k = -2: not rotated / scaled
     return out
+
+
+ENCODINGS = ["baseline", "pbc_list", "pbc_tuple_or_bool", "fortran", "readonly", "ase_cell", "noncontiguous", "int_if_integral",
+             "pbc_int_tuple", "pbc_np_int"]
+
+
+def encode(enc, P, C, pbc, unrotated=False):
+    """(positions, cell, pbc) as the caller may legitimately hand them over"""
+    P, C = np.array(P, dtype=float), np.array(C, dtype=float)
+    pb = np.array(pbc, dtype=bool)
+    if enc == "pbc_list":
+        return P, C, [bool(x) for x in pbc]
+    if enc == "pbc_tuple_or_bool":
+        return P, C, (bool(pbc[0]) if len(set(bool(x) for x in pbc)) == 1 else tuple(bool(x) for x in pbc))
+    if enc == "pbc_int_tuple":  # ASE-style 0/1 flags
+        return P, C, tuple(int(bool(x)) for x in pbc)
+    if enc == "pbc_np_int":
+        return P, C, np.array([int(bool(x)) for x in pbc])
+    if enc == "fortran":
+        return np.asfortranarray(P), np.asfortranarray(C), pb
+    if enc == "readonly":
+        P.setflags(write=False)
+        C.setflags(write=False)
+        return P, C, pb
+    if enc == "ase_cell":
+        from ase.cell import Cell
+
+        return P, Cell(C), pb
+    if enc == "noncontiguous":
+        return np.repeat(P, 2, axis=1)[:, ::2], np.repeat(C, 2, axis=1)[:, ::2], pb
+    if enc == "int_if_integral" and unrotated and np.allclose(P, np.rint(P)) and np.allclose(C, np.rint(C)):
+        return np.rint(P).astype(np.int64), np.rint(C).astype(np.int64), pb
+    return P, C, pb
 
 
 def execute(cfg):
     import matid.geometry
 
     rng = rng_for("c10run", cfg["cellname"], cfg["mult"], cfg["pbc"], cfg["pos"], cfg["c2x2"])
-    fr = zworld.Frame(rng, rotate=cfg["k"] != 0)
+    unrot = cfg["k"] in (0, -2)
+    fr = zworld.Frame(rng, rotate=not unrot)
     cell, pbc, pos = cfg["cell"], cfg["pbc"], cfg["pos"]
     n = len(pos)
     red, U = zworld.reduce_lattice(cell, pbc)
@@ -67,18 +101,35 @@ def execute(cfg):
         return {"skip": "search box too large"}
     cutoff = None if cfg["c2x2"] == -1 and cfg["none_cutoff"] else (float("inf") if cfg["c2x2"] == -1 else fr.length(cfg["c2x2"]))
     P, C = fr.to_code(pos), fr.to_code(cell)
+    # the same call under different but valid encodings of its arguments (one per record, rotating): results are judged by the
+    # same clauses, so an encoding the code mishandles shows up as an ordinary violation whose key names the encoding
+    enc = ENCODINGS[int(rng.integers(len(ENCODINGS)))] if cfg["k"] != 1 else "baseline"
+    if unrot and int(rng.integers(2)):
+        enc = "int_if_integral"
+    Pa, Ca, pbca = encode(enc, P, C, pbc, unrotated=unrot)
     rec = {"ev": "tensor", "cell": cell, "pbc": pbc, "pos": pos, "red": red, "U": U, "K": K, "c2x2": cfg["c2x2"],
            "lmax2": max([int(np.dot(cell[i], cell[i])) for i in range(3) if pbc[i]] + [0]),
-           "cfg": {k: cfg[k] for k in ("cellname", "mult", "k", "none_cutoff")}, "n": n}
+           "cfg": dict({k: cfg[k] for k in ("cellname", "mult", "k", "none_cutoff")}, enc=enc), "n": n}
     try:
         if cutoff is None:
-            disp, fac, dist = matid.geometry.get_displacement_tensor(P.copy(), C.copy(), np.array(pbc), None,
+            disp, fac, dist = matid.geometry.get_displacement_tensor(Pa, Ca, pbca, None,
                                                                      return_factors=True, return_distances=True)
         else:
-            disp, fac, dist = matid.geometry.get_displacement_tensor(P.copy(), C.copy(), np.array(pbc), cutoff=cutoff,
+            disp, fac, dist = matid.geometry.get_displacement_tensor(Pa, Ca, pbca, cutoff=cutoff,
                                                                      return_factors=True, return_distances=True)
     except Exception as e:
         rec["error"] = "%s: %s" % (type(e).__name__, e)
+        return rec
+    # history: keep the returned tables, call again for another input with the same number of atoms, look at the tables again
+    kept = [np.array(x, copy=True) for x in (disp, fac, dist)]
+    rec["untouched_by_later_call"] = True
+    try:
+        P2 = np.array(P, dtype=float)[::-1] * 1.37 + 0.11
+        matid.geometry.get_displacement_tensor(P2, np.array(C, dtype=float), np.array([not bool(x) for x in pbc]), cutoff=0.5 * (1 + cfg["k"] % 3),
+                                               return_factors=True, return_distances=True)
+        rec["untouched_by_later_call"] = bool(all(np.array_equal(a, b) for a, b in zip(kept, (disp, fac, dist))))
+    except Exception as e:
+        rec["error"] = "second call %s: %s" % (type(e).__name__, e)
         return rec
     fin = np.isfinite(dist)
     consistent = bool(np.array_equal(fin, np.isfinite(disp).all(axis=2)) and np.array_equal(fin, np.isfinite(fac).all(axis=2)))
@@ -142,7 +193,8 @@ def run(tier):
     for r, (clause,) in fails:
         if clause.startswith("HARNESS"):
             raise MachineryError("harness setup rejected by the spec (%s) on %s" % (clause, r["cfg"]))
-        key = "C10 clause=%s cell=%s x%d pbc=%s c2x2=%s pos=%s" % (clause, r["cfg"]["cellname"], r["cfg"]["mult"], r["pbc"], r["c2x2"], r["pos"])
+        key = "C10 clause=%s cell=%s x%d pbc=%s c2x2=%s pos=%s enc=%s" % (clause, r["cfg"]["cellname"], r["cfg"]["mult"], r["pbc"], r["c2x2"], r["pos"],
+                                                                              r["cfg"].get("enc"))
         run.violation(key, "%s on cell %s pbc %s cutoff^2=%s positions %s" % (clause, r["cell"], r["pbc"],
                                                                                   "inf" if r["c2x2"] == -1 else r["c2x2"] / 2.0, r["pos"]), r)
     # non-trivial: some pair's minimum image is not the n=0 image, or some pair is beyond the cutoff
